@@ -113,13 +113,23 @@ func checkCompositeLiteral(
 		t = ptr.Elem()
 	} else if ptr, ok := t.Underlying().(*types.Pointer); ok && lit.Type == nil {
 		// elided element literal whose element type is a defined pointer type (type NP *T; []NP{{...}}):
-		// it builds a T - unless the defined pointer type carries the annotation itself
-		if np, isNamed := types.Unalias(t).(*types.Named); !isNamed || np.Obj().Pkg() == nil ||
-			!constructors.HasType(np.Obj().Pkg().Path(), np.Obj().Name()) {
-			t = ptr.Elem()
+		// it builds a T - and is a literal of NP as well when NP carries an annotation of its own
+		if v := checkLiteralOfType(pass, lit, ptr.Elem(), constructors, currentFunction); v != nil {
+			return v
 		}
 	}
 
+	return checkLiteralOfType(pass, lit, t, constructors, currentFunction)
+}
+
+// checkLiteralOfType reports the literal when t is an annotated type instantiated outside its constructors
+func checkLiteralOfType(
+	pass *analysis.Pass,
+	lit *ast.CompositeLit,
+	t types.Type,
+	constructors util.TypeAssociationRegistry,
+	currentFunction string,
+) *ConstructorViolation {
 	named, ok := types.Unalias(t).(*types.Named)
 	if !ok {
 		return nil
